@@ -581,3 +581,8 @@ package mcp
 //@   ensures[C01,C12 handler-runs-exactly-once-for-a-registered-tool] old(callNameOK(req)) && old(callArgsOK(req)) && atlock(req.Params.(map[string]interface{})["name"].(string) in m.tools) ==> toolcalls == old(toolcalls) + 1
 //@ func toolManager.handleListTools
 //@   ensures[C03 tools-list-result-has-an-array] ret1 == nil && istype(ret, ListToolsResult) && ret.(ListToolsResult).Tools != nil
+
+// The table of pending server-issued requests changes only through the response manager's own
+// operations; a stream handler or a session's teardown has no business in it (C05, C11).
+//@ type responseManager
+//@   private[C05,C11] pendingRequests writers newResponseManager, RegisterRequest, UnregisterRequest, DeliverResponse
